@@ -1009,3 +1009,107 @@ class Rl2dStepSubset(Family):
         for case in RlRaggedRavel.bounded_cases(self, tier, seed):
             for stp in (1, 2, 3, -1, -2):
                 yield {"rows": case["rows"], "step": stp}
+
+
+@register
+class RlRaggedArgmax(Family):
+    """RunLengthRaggedArray.argmax(axis=-1) for integer values: for every row the position of the FIRST occurrence of the row maximum in the decoded
+    row, i.e. the start B(r, c*) of the first run whose value is the maximum of the run values (runs are non-empty, so the first dense position
+    attaining the maximum is the start of the first run attaining it).  Operands are contract-level stand-ins (SpecRagged)."""
+    name = "RunLengthRaggedArray.argmax"
+    qualname = "npstructures.runlengtharray:RunLengthRaggedArray.argmax"
+    serves = ["C17"]
+    timeout_ms = 30000
+    assumed = ["RaggedArray operations through their contracts (SpecRagged: row maximum in witness form, == with a column, nonzero, x[rows, cols]; audited)",
+               "numpy.unique(return_index=True): first occurrence (audited)", "numpy.arange, integer-array gather"]
+
+    def late_lemmas(self, ctx, kind, exc):
+        """index bounds cannot fail: every row has a run attaining its maximum, so unique(rows) has one entry per row"""
+        pass
+
+    def run(self, ctx, kind):
+        st = sym_rl_ragged(ctx, kind="int")
+        n, VL, B, W = st["n"], st["VL"], st["B"], st["W"]
+        VS = st["vals"]._shape.S
+        vrow = st["vals"]._shape.rowof
+
+        def pair_pool(t_):
+            uq = ctx.ghost["uniques"][-1]
+            nzr = ctx.ghost["spec_nonzeros"][-1]
+            f = uq["first"](t_)
+            return [t_, f, f + 1, uq["K"], nzr["cnt"], n, uq["uniq"](t_)]
+        ctx.ghost["pool_for_pair_gather"] = pair_pool
+        G = {}
+
+        def lemmas(c_):
+            """mask meaning, every row has a hit, unique(rows) == [0..n): stated when the ghosts exist, i.e. right before the final gather"""
+            ex = c_.ghost["spec_extrema"][-1]
+            ext, at = ex["ext"], ex["at"]
+            nzr = c_.ghost["spec_nonzeros"][-1]
+            M, cnt, pos, rk, rows = nzr["M"], nzr["cnt"], nzr["pos"], nzr["rk"], nzr["rows"].fn
+            uq = c_.ghost["uniques"][-1]
+            K, uniq, first, grp = uq["K"], uq["uniq"], uq["first"], uq["grp"]
+            mrow = nzr["spec"]._shape.rowof
+            r_, c2 = z3.Int("lr"), z3.Int("lc")
+            p_ = VS(r_) + c2
+            c_.prove_then_assume("lemma: the mask handed to nonzero marks the runs whose value is the row maximum",
+                                 z3.Implies(z3.And(0 <= r_, r_ < n, 0 <= c2, c2 < VL(r_)), M(p_) == (W(r_, c2) == ext(r_))),
+                                 pool=[r_, r_ + 1, c2, p_, vrow(p_), vrow(p_) + 1, mrow(p_), mrow(p_) + 1, n], kind="lemma")
+            c_.assume_forall("mask cell by cell (lemma above, (r, c) arbitrary)", lambda a_, b_: z3.Implies(z3.And(0 <= a_, a_ < n, 0 <= b_, b_ < VL(a_)),
+                             M(VS(a_) + b_) == (W(a_, b_) == ext(a_))), arity=2)
+            k = z3.Int("k")
+            ha = VS(k) + at(k)
+            c_.prove("lemmaU.every row has a listed hit", z3.Implies(z3.And(0 <= k, k < n), z3.And(M(ha), 0 <= rk(ha), rk(ha) < cnt, rows(rk(ha)) == k,
+                                                                                             0 <= grp(rk(ha)), grp(rk(ha)) < K, uniq(grp(rk(ha))) == k)),
+                     pool=[k, k + 1, at(k), ha, ha + 1, rk(ha), pos(rk(ha)), vrow(ha), vrow(ha) + 1, mrow(ha), mrow(ha) + 1, n, VS(n), cnt, grp(rk(ha))], kind="lemma")
+            c_.assume_forall("every row has a slot in unique(rows) (lemmaU)", lambda k_: z3.Implies(z3.And(0 <= k_, k_ < n), z3.And(
+                0 <= grp(rk(VS(k_) + at(k_))), grp(rk(VS(k_) + at(k_))) < K, uniq(grp(rk(VS(k_) + at(k_)))) == k_)))
+            slot = lambda k_: grp(rk(VS(k_) + at(k_)))
+            Z = z3.IntVal(0)
+            c_.prove("lemmaV.base: slot(0) == 0 when there is a row", z3.Implies(n > 0, slot(Z) == 0), pool=[Z, slot(Z), first(Z), rows(first(Z)), K, n, cnt], kind="lemma")
+            c_.prove("lemmaV.step: slot(k) == k => slot(k+1) == k+1", z3.Implies(z3.And(0 <= k, k + 1 < n, slot(k) == k), slot(k + 1) == k + 1),
+                     pool=[k, k + 1, slot(k), slot(k + 1), slot(k) + 1, first(k + 1), rows(first(k + 1)), first(slot(k) + 1), rows(first(slot(k) + 1)), K, n, cnt], kind="lemma")
+            c_.assume_forall("slot(k) == k, so unique(rows) == [0..n) (lemmaV, by induction)", lambda k_: z3.Implies(z3.And(0 <= k_, k_ < n), z3.And(slot(k_) == k_, uniq(k_) == k_)))
+            c_.prove_then_assume("lemma: unique(rows) has exactly one entry per row", K == n, pool=[n, n - 1, K, K - 1, first(K - 1), rows(first(K - 1)), slot(n - 1), Z], kind="lemma")
+            G.update(ext=ext, at=at, M=M, cnt=cnt, pos=pos, rk=rk, rows=rows, cols=nzr["cols"].fn, K=K, uniq=uniq, first=first, grp=grp)
+        ctx.ghost["before_pair_gather"] = lemmas
+        res = st["obj"].argmax(axis=-1)
+        ext, at, M, cnt, pos, rk, rows, cols, K, uniq, first, grp = (G[x] for x in ("ext", "at", "M", "cnt", "pos", "rk", "rows", "cols", "K", "uniq", "first", "grp"))
+        r, c = z3.Int("r"), z3.Int("c")
+        ctx.skolem(z3.And(0 <= r, r < n, 0 <= c, c < VL(r)))
+        p = VS(r) + c
+        ctx.prove("post.one position per row", z3.And(K == n, dim_term(res.shape_[0]) == n), pool=[n, K], live=[r, c])
+        # first run attaining the maximum
+        ctx.assume(W(r, c) == ext(r))
+        ctx.assume_forall("c is the first run of row r with the maximal value", lambda c_: z3.Implies(z3.And(0 <= c_, c_ < c), W(r, c_) != ext(r)))
+        t = rk(p)
+        f = first(r)
+        cf = cols(f)
+        pool = [r, r + 1, c, p, t, f, cf, VS(r) + cf, pos(f), pos(t), rows(f), rows(f) + 1, rows(t), rk(pos(f)), K, cnt, n, grp(t), grp(f)]
+        ctx.prove_then_assume("lemma: run c is listed, in row r", z3.And(0 <= t, t < cnt, pos(t) == p, rows(t) == r, cols(t) == c),
+                              pool=[r, r + 1, c, p, t, pos(t), rows(t), rows(t) + 1, cnt, n, VS(n)], without=["lemmaU", "lemmaV", "unique."])
+        ctx.prove_then_assume("lemma: the first listed hit of row r is not after it", z3.And(0 <= f, f <= t, rows(f) == r, f < cnt),
+                              pool=[r, t, grp(t), f, K, n], without=["nonzero.", "mask cell"])
+        ctx.prove_then_assume("lemma: the first listed hit of row r is run c", cf == c, pool=pool + [cf + 1])
+        ctx.prove("post.result[r] == start of the first run of row r whose value is the row maximum", res.get(r) == B(r, c), pool=[r, f, cf, c])
+        ctx.prove("post.the row maximum bounds every run value of the row", W(r, c) <= ext(r), pool=[r, c], live=[r, c])
+        ctx.prove("post.operands not modified", z3.BoolVal(st["inds"].writes == 0 and st["vals"].writes == 0))
+
+    def concrete(self, case):
+        from npstructures import RaggedArray
+        from npstructures.runlengtharray import RunLengthRaggedArray
+        rows = case["rows"]
+        rr = RunLengthRaggedArray.from_ragged_array(RaggedArray(rows))
+        got = np.asarray(rr.argmax(axis=-1)).tolist()
+        exp = [int(np.argmax(r)) for r in rows]
+        if got != exp:
+            return {"msg": f"RunLengthRaggedArray.argmax for rows {rows}: {got}, numpy per row {exp}", "sig": "wrong:rlragged-argmax"}
+
+    def concretise(self, kind, model, ghost):
+        return {"rows": [[3, 3, 0, 0, 3, 3, 3], [1, 2, 2]]}
+
+    def bounded_cases(self, tier, seed):
+        for case in RlRaggedRavel.bounded_cases(self, tier, seed):
+            yield case
+        yield {"rows": [[3, 3, 0, 0, 3, 3, 3], [1, 2, 2]]}
+        yield {"rows": [[0, 2, 1, 2], [5], [1, 1, 4, 4, 0, 4]]}
